@@ -453,7 +453,7 @@ func duplicates(run *ev.Run, unit int64, r *rand.Rand) {
 		addr := ln.Addr().String()
 		ok := false
 		for i := 0; i < 200 && !ok; i++ {
-			resp, err := http.Get("http://" + addr + "/witness/v0/logs")
+			resp, err := (&http.Client{Timeout: time.Second}).Get("http://" + addr + "/witness/v0/logs")
 			if err == nil {
 				resp.Body.Close()
 				ok = resp.StatusCode == 200
